@@ -12,7 +12,7 @@ export -f run
 {
 for d in seeded/*/; do id=$(basename $d); pid=${id%%-*}; echo "$id $d/patch.diff $pid"; done
 # seeds whose mechanism lives in another property's check
-for x in C01-m1:C04 C01-m3:C04 C01-m4:C04 C06-m2:C04 C06-m3:C04 C08-m4:C04 C12-m2:C18 C12-m4:C18 C10-m3:C19 C05-m4:C15 C03-m3:C08 C13-m4:C08 C16-m3:C11 C01-m5:C04 C06-m5:C04 C17-m6:C04 C07-m5:C04 C07-m6:C17 C06-m6:C07 C04-m6:C11 C02-m5:C13 C02-m6:C13 C12-m6:C18 C08-m5:C03 C03-m5:C02; do echo "${x%%:*} seeded/${x%%:*}/patch.diff ${x#*:}"; done
+for x in C01-m1:C04 C01-m3:C04 C01-m4:C04 C06-m2:C04 C06-m3:C04 C08-m4:C04 C12-m2:C18 C12-m4:C18 C10-m3:C19 C05-m4:C15 C03-m3:C08 C13-m4:C08 C16-m3:C11 C01-m5:C04 C06-m5:C04 C17-m6:C04 C07-m5:C04 C07-m6:C17 C06-m6:C07 C04-m6:C11 C02-m5:C13 C02-m6:C13 C12-m6:C18 C08-m5:C03 C03-m5:C02 C01-m6:C04 C03-m7:C10 C03-m7:C19 C04-m7:C11 C06-m7:C04 C09-m6:C02; do echo "${x%%:*} seeded/${x%%:*}/patch.diff ${x#*:}"; done
 # reverted fixes: defect -> properties
 while read d pids; do for p in $pids; do
   r=$(ls fixes/round7/*_${d}.diff fixes/round8/*_${d}.diff 2>/dev/null | head -1)
